@@ -263,10 +263,14 @@ pub fn run(args: &Args) -> i32 {
                 e.count += 1;
             }
             if sample.is_none() && idx.len() == depth && ti % 13 == 0 {
-                sample = Some(json!({"first_ttl": first_ttl, "history": idx.iter().map(|i| format!("{:?}", al[*i].outs)).collect::<Vec<_>>(), "hops": st.hops().iter().map(trippy_core::Hop::ttl).collect::<Vec<_>>()}));
+                sample = Some(json!({"first_ttl": first_ttl, "history": idx.iter().map(|i| format!("{:?}", al[*i].outs)).collect::<Vec<_>>(), "hops": mc::catch(|| st.hops().iter().map(trippy_core::Hop::ttl).collect::<Vec<_>>()).unwrap_or_default()}));
             }
             local.len() < 40
         });
+        for (what, pn, hidx) in &stats.panics {
+            let key = format!("{}:{what}", pn.key());
+            local.entry(key.clone()).or_insert(Finding { key, detail: format!("[first_ttl={first_ttl} history={hidx:?}] {what} panicked: {} at {}:{}", pn.message, pn.file, pn.line), replay: json!({"check":"C10","first_ttl":first_ttl,"history":hidx}), weight: (hidx.len(), 0), count: 1 });
+        }
         let mut a = agg.lock().unwrap();
         a.0 += stats.states;
         a.1 += stats.transitions;
